@@ -5,5 +5,6 @@ CONSTANTS
   KeepHist = FALSE
   GateAtomic = FALSE
   NonIdemRetry = FALSE
+  Defect_WaitResultsOnly = FALSE
 VIEW View
 INVARIANTS NoViolation DirectBound TemptingBound
